@@ -6,8 +6,11 @@ import (
 	"go/constant"
 	"go/token"
 	"go/types"
+	"regexp"
+	"sort"
 	"strings"
 
+	"golang.org/x/tools/go/cfg"
 	"golang.org/x/tools/go/packages"
 
 	"kapcheck/an"
@@ -41,10 +44,14 @@ func runC05(c *core.Ctx) {
 	c.Rule("C05.typeguard", "A7: no ErrTypeGuardFailed literal in an Eval<Kind> method of tick/stateful reports as ActualType the very kind the method was asked for, and under a test of the result container's Is<Kind>Value flag the ActualType is that kind: the re-specialisation loop of EvalBinaryNode.eval trusts ActualType, and a report that repeats the requested type makes it select the same function again — unbounded recursion, a stack overflow no recover() can contain")
 	c.Rule("C05.udf.alloc", "A9b: a size taken from a peer message (Begin.Size, the frame length) is compared against a lower and an upper bound on every path before it sizes an allocation")
 
+	c.Rule("C05.lexstate", "typestate (may-be-stopped dataflow over go/cfg): in every parser method that stops the lexer (calls a method storing nil into parser.lex), no method that dereferences parser.lex — directly or through same-receiver calls — is called after the stop on any path, until the field is assigned again")
+	c.Rule("C05.udf.selfwait", "A5 (must-done dataflow over go/cfg): a goroutine of package udf that is counted in a sync.WaitGroup field (calls X.Done) calls nothing that reaches X.Wait — directly or through static same-package calls — before its Done on any path; deferred calls are taken in their run order (last first, after the body)")
+	c.Rule("C05.retry", "A1 (termination): F41: in tick/stateful a method that calls itself on the same receiver (retry after fixing cached operand types) does so only on paths where an integer retry parameter was tested against a bound and is passed on incremented; recursion into child nodes is structural and not examined")
 	c05Recover(c)
 	if pkg := c.P.Pkg("tick/ast"); pkg != nil {
 		c05LexWidth(c, pkg)
 		c05LexDrain(c, pkg)
+		c05LexState(c, pkg)
 	} else {
 		c.Undecided("C05.lexwidth", "anchor:tick/ast", token.NoPos, "package not loaded")
 	}
@@ -52,12 +59,14 @@ func runC05(c *core.Ctx) {
 		c05Div(c, pkg)
 		c05Slice(c, pkg)
 		c05ArrayIdx(c, pkg)
+		c05Retry(c, pkg)
 	} else {
 		c.Undecided("C05.div", "anchor:tick/stateful", token.NoPos, "package not loaded")
 	}
 	if pkg := c.P.Pkg("udf"); pkg != nil {
 		c05UDF(c, pkg)
 		c05UDFSend(c, pkg)
+		c05SelfWait(c, pkg)
 	} else {
 		c.Undecided("C05.udf.panic", "anchor:udf", token.NoPos, "package not loaded")
 	}
@@ -1238,4 +1247,527 @@ func c05ArgLiteralsBehindArityTest(c *core.Ctx, pkg *packages.Package) (bool, st
 		return false, "no such literal found (the invariant's producer moved)"
 	}
 	return true, ""
+}
+
+// c05Retry: F41. A method that calls itself on the same receiver with the same inputs ("fix the cached types and try again")
+// does not get smaller by itself: it terminates only if the retry is counted. On every path that reaches the self-call, an int
+// parameter was compared against a bound (and the path is the one where the bound is not reached), and the self-call passes that
+// parameter plus a positive constant. Recursion into children (another receiver expression) is structural and not looked at.
+func c05Retry(c *core.Ctx, pkg *packages.Package) {
+	info := pkg.TypesInfo
+	n := 0
+	// same-receiver call edges
+	type edge struct {
+		from *core.Func
+		to   *types.Func
+		call *ast.CallExpr
+	}
+	var edges []edge
+	byObj := map[*types.Func]*core.Func{}
+	for _, f := range core.AllFuncs(pkg) {
+		if o, ok := info.Defs[f.Decl.Name].(*types.Func); ok {
+			byObj[o] = f
+		}
+	}
+	for _, f := range core.AllFuncs(pkg) {
+		if f.Decl.Recv == nil || len(f.Decl.Recv.List) != 1 || len(f.Decl.Recv.List[0].Names) != 1 {
+			continue
+		}
+		recv := info.Defs[f.Decl.Recv.List[0].Names[0]]
+		ast.Inspect(f.Decl.Body, func(nd ast.Node) bool {
+			call, ok := nd.(*ast.CallExpr)
+			if !ok {
+				return true
+			}
+			sel, ok := call.Fun.(*ast.SelectorExpr)
+			if !ok {
+				return true
+			}
+			id, ok := ast.Unparen(sel.X).(*ast.Ident)
+			if !ok || info.Uses[id] != recv {
+				return true
+			}
+			if s, ok := info.Selections[sel]; ok && s.Kind() == types.MethodVal {
+				if m, ok := s.Obj().(*types.Func); ok && byObj[m] != nil {
+					edges = append(edges, edge{f, m, call})
+				}
+			}
+			return true
+		})
+	}
+	// methods on a same-receiver cycle
+	succ := map[*types.Func][]*types.Func{}
+	for _, e := range edges {
+		from := info.Defs[e.from.Decl.Name].(*types.Func)
+		succ[from] = append(succ[from], e.to)
+	}
+	reaches := func(a, b *types.Func) bool {
+		seen := map[*types.Func]bool{}
+		var walk func(x *types.Func) bool
+		walk = func(x *types.Func) bool {
+			for _, y := range succ[x] {
+				if y == b {
+					return true
+				}
+				if !seen[y] {
+					seen[y] = true
+					if walk(y) {
+						return true
+					}
+				}
+			}
+			return false
+		}
+		return walk(a)
+	}
+	for _, e := range edges {
+		from := info.Defs[e.from.Decl.Name].(*types.Func)
+		if !(e.to == from || reaches(e.to, from)) {
+			continue
+		}
+		n++
+		cons := core.RecvName(e.from.Decl) + "." + e.from.Decl.Name.Name + "→" + e.to.Name()
+		if e.to != from {
+			// a cycle through several methods: one of its self-describing members must carry the count; decided at that member
+			// when it is itself a self-caller, otherwise not decided
+			c.Undecided("C05.retry", cons, e.call.Pos(), "same-receiver recursion through several methods: the rule only knows the counted self-call form")
+			continue
+		}
+		// counted self-call
+		fn := e.from
+		var intParams []string
+		idx := map[string]int{}
+		k := 0
+		for _, fl := range fn.Decl.Type.Params.List {
+			for _, nm := range fl.Names {
+				if b, ok := info.Defs[nm].Type().Underlying().(*types.Basic); ok && b.Info()&types.IsInteger != 0 {
+					intParams = append(intParams, nm.Name)
+					idx[nm.Name] = k
+				}
+				k++
+			}
+		}
+		eng := &an.Engine{Prog: c.P,
+			TrackCall: func(call *ast.CallExpr, callee *types.Func) string {
+				if call == e.call {
+					return "retry"
+				}
+				return ""
+			},
+			Classify: func(a an.Atom) (string, bool) {
+				for _, p := range intParams {
+					switch {
+					case (a.Op == token.GEQ || a.Op == token.GTR) && a.L == p:
+						return "exhausted:" + p, false
+					case (a.Op == token.LSS || a.Op == token.LEQ) && a.L == p:
+						return "exhausted:" + p, true
+					}
+				}
+				return "", false
+			}}
+		paths, err := eng.Run(fn)
+		if err != nil {
+			c.Undecided("C05.retry", cons, fn.Decl.Pos(), "%v", err)
+			continue
+		}
+		good := len(intParams) > 0
+		why := "the method has no integer parameter that could count the retries"
+		if good {
+			for _, p := range paths {
+				ev := p.Find("retry")
+				if ev == nil {
+					continue
+				}
+				counted := false
+				for _, q := range intParams {
+					v, decided := p.Assign()["exhausted:"+q]
+					if !decided || v {
+						continue
+					}
+					if i := idx[q]; i < len(ev.Args) && regexp.MustCompile(`^\(?`+regexp.QuoteMeta(q)+` \+ [1-9][0-9]*\)?$`).MatchString(ev.Args[i]) {
+						counted = true
+					}
+				}
+				if !counted {
+					good = false
+					why = "on path [" + p.Cond() + "] the self-call is reached without a test of a retry counter against a bound, or does not pass counter+1 (passes " + strings.Join(ev.Args, ", ") + ")"
+					break
+				}
+			}
+		}
+		c.Check(good, "C05.retry", cons, e.call.Pos(), "%s calls itself on the same receiver with the same scope and no bounded retry count: %s. Termination then rests on every operand's Eval* and Type agreeing; where they do not (a unary minus over a string reference reports string, its EvalString always fails the guard) one data point sends the evaluation into unbounded recursion — fatal error: stack overflow, which no recover catches: the daemon dies", cons, why)
+	}
+	c.Floor("C05.retry", "same-receiver recursive calls in tick/stateful", n, 1)
+}
+
+// c05LexState: typestate of parser.lex. stopParse (any parser method that stores nil into the lex field) ends the lexer's life;
+// after it, on no path of any parser method is a method called that (itself or through same-receiver calls) dereferences the
+// field, until the field is assigned again. A use after the stop is a nil dereference: a runtime error, which parser.recover
+// re-panics on purpose — ParseLambda/Parse panic out of their callers instead of returning a parse error.
+func c05LexState(c *core.Ctx, pkg *packages.Package) {
+	info := pkg.TypesInfo
+	isLex := func(e ast.Expr) bool { return an.FieldSel(info, e, "parser", "lex") }
+	var methods []*core.Func
+	byObj := map[*types.Func]*core.Func{}
+	for _, f := range core.AllFuncs(pkg) {
+		if core.RecvName(f.Decl) == "parser" {
+			methods = append(methods, f)
+			if o, ok := info.Defs[f.Decl.Name].(*types.Func); ok {
+				byObj[o] = f
+			}
+		}
+	}
+	if len(methods) == 0 {
+		c.Undecided("C05.lexstate", "anchor:parser", token.NoPos, "no parser methods found")
+		return
+	}
+	// killers store nil into the field; users dereference it (x.lex.<sel>) outside a nil test of their own
+	killers, users := map[*types.Func]bool{}, map[*types.Func]bool{}
+	calls := map[*types.Func][]*types.Func{}
+	for _, f := range methods {
+		o := info.Defs[f.Decl.Name].(*types.Func)
+		ast.Inspect(f.Decl.Body, func(nd ast.Node) bool {
+			switch x := nd.(type) {
+			case *ast.AssignStmt:
+				for i, l := range x.Lhs {
+					if isLex(l) && i < len(x.Rhs) && an.IsNil(info, x.Rhs[i]) {
+						killers[o] = true
+					}
+				}
+			case *ast.IfStmt:
+				// if p.lex != nil { … } guards its own uses
+				if be, ok := x.Cond.(*ast.BinaryExpr); ok && be.Op == token.NEQ && isLex(be.X) && an.IsNil(info, be.Y) {
+					if x.Else != nil {
+						ast.Inspect(x.Else, func(ast.Node) bool { return true })
+					}
+					return false
+				}
+			case *ast.SelectorExpr:
+				if isLex(x.X) {
+					users[o] = true
+				}
+			case *ast.CallExpr:
+				if m := core.Callee(info, x); m != nil && byObj[m] != nil {
+					calls[o] = append(calls[o], m)
+				}
+			}
+			return true
+		})
+	}
+	for changed := true; changed; {
+		changed = false
+		for o, cs := range calls {
+			if users[o] || killers[o] {
+				continue
+			}
+			for _, m := range cs {
+				if users[m] && !users[o] {
+					users[o] = true
+					changed = true
+				}
+			}
+		}
+	}
+	c.Floor("C05.lexstate", "parser methods that end the lexer (store nil)", len(killers), 1)
+	c.Floor("C05.lexstate", "parser methods that use the lexer", len(users), 10)
+	n := 0
+	for _, f := range methods {
+		o := info.Defs[f.Decl.Name].(*types.Func)
+		hasKill := false
+		for _, m := range calls[o] {
+			if killers[m] {
+				hasKill = true
+			}
+		}
+		if !hasKill || killers[o] {
+			continue
+		}
+		n++
+		cons := "parser." + f.Decl.Name.Name
+		g := cfg.New(f.Decl.Body, func(*ast.CallExpr) bool { return true })
+		type ev struct {
+			kind string // "kill", "revive", "use"
+			what string
+			pos  token.Pos
+		}
+		events := func(nd ast.Node) []ev {
+			var out []ev
+			if _, ok := nd.(*ast.DeferStmt); ok {
+				return nil
+			}
+			ast.Inspect(nd, func(x ast.Node) bool {
+				switch y := x.(type) {
+				case *ast.FuncLit:
+					return false
+				case *ast.AssignStmt:
+					for i, l := range y.Lhs {
+						if isLex(l) && i < len(y.Rhs) && !an.IsNil(info, y.Rhs[i]) {
+							out = append(out, ev{"revive", "", y.End()})
+						}
+					}
+				case *ast.CallExpr:
+					if m := core.Callee(info, y); m != nil && byObj[m] != nil {
+						if killers[m] {
+							out = append(out, ev{"kill", m.Name(), y.End()})
+						} else if users[m] {
+							out = append(out, ev{"use", m.Name(), y.Pos()})
+						}
+					}
+				case *ast.SelectorExpr:
+					if isLex(y.X) {
+						out = append(out, ev{"use", "the lex field", y.Pos()})
+					}
+				}
+				return true
+			})
+			sort.SliceStable(out, func(i, j int) bool { return out[i].pos < out[j].pos })
+			return out
+		}
+		in := map[*cfg.Block]int{}
+		for _, b := range g.Blocks {
+			in[b] = -1
+		}
+		if len(g.Blocks) == 0 {
+			continue
+		}
+		in[g.Blocks[0]] = 0
+		bad := ""
+		var badPos token.Pos
+		apply := func(b *cfg.Block, st int, report bool) int {
+			for _, nd := range b.Nodes {
+				for _, e := range events(nd) {
+					switch e.kind {
+					case "kill":
+						st = 1
+					case "revive":
+						st = 0
+					case "use":
+						if report && st == 1 && bad == "" {
+							bad, badPos = e.what, e.pos
+						}
+					}
+				}
+			}
+			return st
+		}
+		work := []*cfg.Block{g.Blocks[0]}
+		for steps := 0; len(work) > 0 && steps < 10000; steps++ {
+			b := work[0]
+			work = work[1:]
+			out := apply(b, in[b], false)
+			for _, s := range b.Succs {
+				nv := out
+				if in[s] > nv {
+					nv = in[s]
+				}
+				if in[s] != nv {
+					in[s] = nv
+					work = append(work, s)
+				}
+			}
+		}
+		for _, b := range g.Blocks {
+			if in[b] >= 0 {
+				apply(b, in[b], true)
+			}
+		}
+		c.Check(bad == "", "C05.lexstate", cons, badPos, "%s is used after the lexer was stopped (its field is nil from then on): the nil dereference is a runtime error, which parser.recover re-panics — the entry point panics out of its callers (lambda vars of a template document, an alert handler's match expression) instead of returning a parse error", bad)
+	}
+	c.Floor("C05.lexstate", "parser methods that stop the lexer themselves", n, 2)
+}
+
+// c05SelfWait: a goroutine that is counted in a WaitGroup (it calls X.Done()) must not, before that Done, call anything that waits
+// on the same group: it would wait for itself, holding whatever the waiter holds (udf.Server.abort → stop waits on ioGroup under
+// s.mu: every later Stop/Abort/Snapshot blocks for good). Must-done dataflow over go/cfg; deferred calls run at exit, last first.
+func c05SelfWait(c *core.Ctx, pkg *packages.Package) {
+	info := pkg.TypesInfo
+	wgField := func(call *ast.CallExpr, method string) *types.Var {
+		sel, ok := call.Fun.(*ast.SelectorExpr)
+		if !ok || sel.Sel.Name != method {
+			return nil
+		}
+		fs, ok := ast.Unparen(sel.X).(*ast.SelectorExpr)
+		if !ok {
+			return nil
+		}
+		s, ok := info.Selections[fs]
+		if !ok || s.Kind() != types.FieldVal {
+			return nil
+		}
+		if n := core.NamedOf(s.Type()); n == nil || n.Obj().Pkg() == nil || n.Obj().Pkg().Path() != "sync" || n.Obj().Name() != "WaitGroup" {
+			return nil
+		}
+		v, _ := s.Obj().(*types.Var)
+		return v
+	}
+	// waiters[X]: functions of the package that reach X.Wait() through static same-package calls
+	byObj := map[*types.Func]*core.Func{}
+	for _, f := range core.AllFuncs(pkg) {
+		if o, ok := info.Defs[f.Decl.Name].(*types.Func); ok {
+			byObj[o] = f
+		}
+	}
+	waiters := map[*types.Var]map[*types.Func]bool{}
+	calls := map[*types.Func][]*types.Func{}
+	for o, f := range byObj {
+		ast.Inspect(f.Decl.Body, func(nd ast.Node) bool {
+			switch x := nd.(type) {
+			case *ast.FuncLit:
+				return false // runs elsewhere (go) or later; not this function waiting
+			case *ast.CallExpr:
+				if v := wgField(x, "Wait"); v != nil {
+					if waiters[v] == nil {
+						waiters[v] = map[*types.Func]bool{}
+					}
+					waiters[v][o] = true
+				}
+				if m := core.Callee(info, x); m != nil && byObj[m] != nil {
+					calls[o] = append(calls[o], m)
+				}
+			}
+			return true
+		})
+	}
+	for _, set := range waiters {
+		for changed := true; changed; {
+			changed = false
+			for o, cs := range calls {
+				if set[o] {
+					continue
+				}
+				for _, m := range cs {
+					if set[m] {
+						set[o] = true
+						changed = true
+						break
+					}
+				}
+			}
+		}
+	}
+	n := 0
+	for _, f := range core.AllFuncs(pkg) {
+		k := 0
+		ast.Inspect(f.Decl.Body, func(nd ast.Node) bool {
+			gs, ok := nd.(*ast.GoStmt)
+			if !ok {
+				return true
+			}
+			fl, ok := gs.Call.Fun.(*ast.FuncLit)
+			if !ok {
+				return true
+			}
+			k++
+			// which group does this goroutine count in?
+			var group *types.Var
+			doneDeferred := false
+			ast.Inspect(fl.Body, func(x ast.Node) bool {
+				switch y := x.(type) {
+				case *ast.DeferStmt:
+					if v := wgField(y.Call, "Done"); v != nil {
+						group, doneDeferred = v, true
+					}
+				case *ast.CallExpr:
+					if v := wgField(y, "Done"); v != nil && group == nil {
+						group = v
+					}
+				}
+				return true
+			})
+			if group == nil || len(waiters[group]) == 0 {
+				return true
+			}
+			n++
+			cons := fmt.Sprintf("%s#go%d", f.Name(), k)
+			isWaiter := func(call *ast.CallExpr) string {
+				if wgField(call, "Wait") == group {
+					return group.Name() + ".Wait"
+				}
+				if m := core.Callee(info, call); m != nil && waiters[group][m] {
+					return m.Name()
+				}
+				return ""
+			}
+			bad := ""
+			var badPos token.Pos
+			g := cfg.New(fl.Body, func(*ast.CallExpr) bool { return true })
+			in := map[*cfg.Block]int{}
+			for _, b := range g.Blocks {
+				in[b] = -1
+			}
+			var defers []*ast.DeferStmt
+			apply := func(b *cfg.Block, st int, report bool) int {
+				for _, nd := range b.Nodes {
+					if d, ok := nd.(*ast.DeferStmt); ok {
+						if report {
+							defers = append(defers, d)
+						}
+						continue
+					}
+					ast.Inspect(nd, func(x ast.Node) bool {
+						switch y := x.(type) {
+						case *ast.FuncLit:
+							return false
+						case *ast.CallExpr:
+							if wgField(y, "Done") == group {
+								st = 1
+							} else if w := isWaiter(y); w != "" && st == 0 && report && bad == "" {
+								bad, badPos = w+" is called before "+group.Name()+".Done()", y.Pos()
+							}
+						}
+						return true
+					})
+				}
+				return st
+			}
+			if len(g.Blocks) == 0 {
+				return true
+			}
+			in[g.Blocks[0]] = 0
+			work := []*cfg.Block{g.Blocks[0]}
+			for steps := 0; len(work) > 0 && steps < 10000; steps++ {
+				b := work[0]
+				work = work[1:]
+				out := apply(b, in[b], false)
+				for _, s := range b.Succs {
+					nv := out
+					if in[s] != -1 && in[s] < nv {
+						nv = in[s] // done on one edge only: not done for sure
+					}
+					if in[s] != nv {
+						in[s] = nv
+						work = append(work, s)
+					}
+				}
+			}
+			exitDone := 1
+			for _, b := range g.Blocks {
+				if in[b] < 0 {
+					continue
+				}
+				out := apply(b, in[b], true)
+				if len(b.Succs) == 0 && out == 0 {
+					exitDone = 0
+				}
+			}
+			// deferred calls run at exit, last registered first
+			sort.Slice(defers, func(i, j int) bool { return defers[i].Pos() > defers[j].Pos() })
+			st := exitDone
+			if doneDeferred {
+				st = 0
+			}
+			for _, d := range defers {
+				if wgField(d.Call, "Done") == group {
+					st = 1
+					continue
+				}
+				if w := isWaiter(d.Call); w != "" && st == 0 && bad == "" {
+					bad, badPos = "the deferred "+w+" runs before "+group.Name()+".Done() on some path", d.Pos()
+				}
+			}
+			c.Check(bad == "", "C05.udf.selfwait", cons, badPos, "%s in a goroutine that %s itself counts: it waits for itself (holding the server's mutex), so after a peer error every later Stop, Abort, Snapshot and the task's stop block for good", bad, group.Name())
+			return true
+		})
+	}
+	c.Floor("C05.udf.selfwait", "goroutines counted in a WaitGroup that some function of the package waits on", n, 2)
 }
